@@ -5,7 +5,9 @@ path.  Histories of generate / merge(composite) / merge(loose parts) are run on
 real Composite objects, all objects are projected after every action and the
 trace is validated by CompositeTrace.tla.  The three engine entry points, the
 embedding path, schema overrides and MetaComposer are exercised on top."""
+import contextlib
 import copy
+import io
 import itertools
 import json
 import os
@@ -124,6 +126,23 @@ def run_history(actions):
                     topology={'q': {n: {'v': ('LQ.%s.topo' % n,)}}},
                     state={'q': {'st': {n: 'LQ.%s.state' % n}}},
                     path=path)
+            elif a['a'] == 'run':
+                # an engine from the composite, given an initial state that names
+                # every store the composite's own state names (other values), run
+                # for one tick: the composite must come out as it went in
+                src = objs[a['i'] - 1]
+                init = {}
+                for p, v in leaves(src.get('state') or {}):
+                    d = init
+                    for k in p[:-1]:
+                        d = d.setdefault(k, {})
+                    d[p[-1]] = 'ENGINE'
+                    d['extra'] = 'ENGINE'
+                with contextlib.redirect_stdout(io.StringIO()):
+                    eng = Engine(composite=src, initial_state=init, display_info=False,
+                                 emitter='null')
+                    eng.update(1)
+                    eng.end()
             elif a['a'] == 'reload':
                 src = objs[a['i'] - 1]
                 store = src.generate_store()
@@ -188,11 +207,15 @@ def histories(tier, seed):
         for i in (1, 2):
             for how in ('fn', 'ctor'):
                 merges.append({'a': 'reload', 'i': i, 'how': how})
+        for i in (1, 2):
+            merges.append({'a': 'run', 'i': i})
         pairs = list(itertools.product(merges, repeat=2))
         if tier == 'quick':
             rng.shuffle(pairs)
             pairs = [pr for pr in pairs if pr[0]['a'] == 'both'][:6] + \
-                [pr for pr in pairs if pr[1]['a'] == 'reload'][:5] + pairs[:10]
+                [pr for pr in pairs if pr[1]['a'] == 'reload'][:5] + \
+                [pr for pr in pairs if pr[1]['a'] == 'run' and pr[0]['a'] in ('loose', 'both')
+                 and pr[0]['i'] == pr[1]['i']][:3] + pairs[:10]
         for m1, m2 in pairs:
             out.append([g1, g2, m1, m2])
     if tier == 'thorough':
@@ -217,7 +240,7 @@ def histories(tier, seed):
 def model_check(rep, tier, scratch):
     text = ('SPECIFICATION Spec\nCONSTANTS\n  MaxObjs = 3\n  MaxSteps = %d\n'
             'CHECK_DEADLOCK FALSE\nPROPERTIES\n  C16_OnlyTargetChanges\n  C16_MergeIsUnion\n'
-            '  C16_EmbeddedUnderPath\n  C16_ReloadSame\n' % (4 if tier == 'quick' else 5))
+            '  C16_EmbeddedUnderPath\n  C16_ReloadSame\n  C16_RunLeavesTemplate\n' % (4 if tier == 'quick' else 5))
     path = os.path.join(scratch, 'MC_Composite.cfg')
     with open(path, 'w') as f:
         f.write(text)
